@@ -12,10 +12,11 @@ from collections.abc import Iterator
 import elementpath.aliases as ta
 from elementpath.xpath_context import XPathContext
 from .base import XPathToken
+from elementpath.helpers import OPTIONAL_COMMENTS
 
 
 class XPathAxis(XPathToken):
-    pattern = r'\b[^\d\W][\w.\-\xb7\u0300-\u036F\u203F\u2040]*(?=\s*\:\:|\s*\(\:.*\:\)\s*\:\:)'
+    pattern = r'\b[^\d\W][\w.\-\xb7\u0300-\u036F\u203F\u2040]*(?=' + OPTIONAL_COMMENTS + r'\:\:)'
     label = 'axis'
     reverse_axis: bool = False
 
